@@ -1,5 +1,5 @@
 """C05 Persisted state is never older than what was published."""
-from mirlib import AnchorMissing, decision_paths, op_place, path_str, _suffix_match
+from mirlib import AnchorMissing, decision_paths, describe_operand, describe_place, describe_rvalue, dom_guards, op_place, path_str, _suffix_match
 from rules.common import aggregates, callers_by_name, crate_aggregates, owner_def, where
 
 META = {
@@ -257,3 +257,47 @@ def run(ctx):
                             "Err edge of store_id never returns: store errors are swallowed")
             if not found:
                 r.bad("write_task/store_id@lane/err", c.loc(), "result of store_id is neither matched nor propagated")
+
+    # ---- R8 who is persistent is decided per lane ---------------------------------------------
+    with ctx.rule("C05.R8", "T7+T1", "the `transient` flag a lane is registered with derives from that lane's own declaration (fresh in every iteration)", floor=3) as r:
+        ag = ctx.crate("swimos_agent")
+        ia = [b for b in ag.all_bodies() if b.defpath.endswith("initialize_agent::{closure#0}") and "AgentModel" in b.defpath]
+        if len(ia) != 1:
+            raise AnchorMissing("initialize_agent coroutine")
+        b = ctx.saw(ia[0])
+        adds = [c for c in b.calls if c.via_name == "add_lane" and len(c.args) >= 4]
+        if len(adds) < 3:
+            raise AnchorMissing("initialize_agent: expected >= 3 add_lane calls, found %d" % len(adds))
+        for k_, c in enumerate(sorted(adds, key=lambda x: x.line)):
+            # the named local behind the config argument
+            L = c.args[3][1][0]
+            seen = set()
+            while L not in seen:
+                seen.add(L)
+                d = b.single_def(L)
+                if d and d[0] == "assign" and d[3][0] == "use" and d[3][1][0] in ("c", "m") and not d[3][1][1][1]:
+                    L = d[3][1][1][0]
+                else:
+                    break
+            whole = [d for d in b.defs.get(L, ()) if d[0] == "assign"]
+            parts = [d for d in b.defs.get(L, ()) if d[0] == "part"]
+            # the iteration this registration belongs to: the innermost next() that dominates the call and lies on a cycle with it
+            its = [x for x in b.calls if x.name == "next" and b.dominates(x.block, c.block) and b.reaches(c.block, {x.block})]
+            its.sort(key=lambda x: sum(1 for y in its if b.dominates(y.block, x.block)))
+            it = its[-1] if its else None
+            key = "initialize_agent/add_lane#%d" % k_
+            r.check(bool(whole) and all("default_lane_config" in describe_rvalue(b, d[3]) for d in whole), key + "/config-from-default", c.loc(), "the lane's config starts from default_lane_config",
+                    "the config passed to add_lane does not start from default_lane_config")
+            if it is not None:
+                stale = [d for d in whole if not b.dominates(it.block, d[1])]
+                r.check(not stale, key + "/config-fresh-per-item", c.loc(), "the config is initialised inside the iteration that registers the lane",
+                        "the config passed to add_lane is initialised outside the loop over the items and mutated inside it (`transient = true` sticks): every lane visited after a transient one is registered as transient and is never persisted")
+            for d in parts:
+                pl = describe_place(b, d[3])
+                if not pl.endswith(".transient"):
+                    continue
+                g = dom_guards(b, d[1])
+                own = any(dd.startswith("contains(") and "TRANSIENT" in dd or (dd.startswith("contains(") and "flags" in dd and l == "true") for dd, l, _ in g)
+                always = it is not None and any(b.dominates(w[1], d[1]) and b.dominates(it.block, w[1]) for w in whole) and not any(dd.startswith("contains(") for dd, l, _ in g)
+                r.check(own or always, key + "/transient-set-by-own-flag", b.loc(d[5] if len(d) > 5 else c.line), "transient := true under the item's own TRANSIENT flag (or unconditionally for dynamically added lanes, on a fresh config)",
+                        "transient is set under %s" % [(dd[:40], l) for dd, l, _ in g][-2:])
